@@ -20,9 +20,9 @@ Definition bag_step (rel : nat -> list nat) (m : marks) (o : nat) : marks :=
   match m o with Some _ => m | None => process rel o m end.
 Definition bag_to_dict (rel : nat -> list nat) (order : list nat) : marks := fold_left (bag_step rel) order no_marks.
 
-(* dictionary keys of the result: the primary key when the object has one (a new object with an automatic key has none before
-   the flush that Bag.to_dict does not perform) *)
-Definition bag_keys {K : Type} (pks : list (option K)) : list (option K) := pks.
+(* dictionary keys of the result: Bag.to_dict flushes the session first (as Entity.to_dict does), so every object -- also one
+   created in this session with an automatic key -- has its primary key when the result keys are read *)
+Definition bag_keys {K : Type} (pks : list K) : list (option K) := map Some pks.
 
 Definition mark_eqb (a b : option mark) : bool :=
   match a, b with None, None => true | Some Full, Some Full => true | Some Partial, Some Partial => true | _, _ => false end.
